@@ -71,6 +71,8 @@ func runC03(c *engine.Ctx, tier string) {
 	}
 	sort.Strings(all)
 	perIterationFresh(c, "C03.15", all, 20)
+	// the ancestor walk of the tombstone search and of the cascade goes through GetParentPath
+	parentCut(c, "C03.16")
 }
 
 var pathNameRe = regexp.MustCompile(`(?i)path|prefix`)
